@@ -31,6 +31,7 @@ def run(ctx):
     check_strshare(ctx, prog)
     check_release(ctx, prog, tags)
     check_numeq(ctx, prog)
+    check_streq(ctx, prog)
     # the element lifetime rules of Array, on the instantiations Var's containers use (Array<Var>, Array<char>, the Dic storage):
     # removing / inserting children must construct and destroy each child exactly once
     n_l = C01.check_lifetime(ctx, prog)
@@ -624,3 +625,77 @@ def check_numeq(ctx, prog):
             ctx.check(bad is None, 'C04.numeq', f['pq'], role, fwhere(f), 'interpreted for %d (tag, stored value, argument) combinations: result = exact numeric equality' % runs,
                       'Var::operator==(%s): %s' % (pt.get('s'), bad))
     ctx.floor('C04.numeq', n, 1)
+
+
+# ------------------------------------------------------------------ C04.streq
+
+def check_streq(ctx, prog):
+    """C04.streq: two Vars holding strings compare equal exactly when their characters are equal, whichever representation
+    (inline buffer / heap buffer) each side uses.  operator==(const Var&) is interpreted (scansim) with both operands modelled -
+    tag, inline buffer, heap buffer object - for every pair of texts of length 0..9 over {a, b} prefixes in all four
+    representation combinations (a heap buffer may hold a short text after an in-place reassignment)."""
+    import scansim
+    fs = [g_ for g_ in prog.fn('asl::Var::operator==', '(const asl::Var &)const') if g_.get('body')]
+    if not fs:
+        return
+    f = fs[0]
+    en = dict((c['n'], c['v']) for c in prog.enums['asl::Var::Type']['consts'])
+    if 'STRING' not in en or 'SSTRING' not in en:
+        return
+    ctx.analysed(f)
+    role = 'operator==(const Var&):string equality over both representations'
+    texts = ['', 'a', 'ab', 'abababa', 'abababb', 'abababab', 'ababababa', 'b']
+    inline_cap = 0
+    for r_ in prog.records.values():
+        if r_['q'].startswith('asl::Var'):
+            for fld in r_.get('fields', []):
+                if fld['n'] == '_ss':
+                    inline_cap = max(inline_cap, T(r_, fld['t']).get('n') or 0)
+    if not inline_cap:
+        ctx.undecided('C04.streq', f['pq'], role, fwhere(f), 'inline buffer size not found')
+        return
+    bad = und = None
+    runs = 0
+    pid = f['params'][0]['id']
+    for t1 in texts:
+        for t2 in texts:
+            for rep1 in ('SSTRING', 'STRING'):
+                for rep2 in ('SSTRING', 'STRING'):
+                    if (rep1 == 'SSTRING' and len(t1) >= inline_cap) or (rep2 == 'SSTRING' and len(t2) >= inline_cap):
+                        continue
+                    bufs = {}
+                    mems = {'_type': en[rep1]}
+                    rec = {'_type': en[rep2]}
+                    for side, rep, txt, store in (('L', rep1, t1, mems), ('R', rep2, t2, rec)):
+                        chars = [ord(c) for c in txt] + [0]
+                        if rep == 'SSTRING':
+                            bufs[('SS', side)] = chars + [0x55] * (inline_cap - len(chars))
+                            store['_ss'] = ('P', ('SS', side), 0)
+                        else:
+                            bufs[('O', 'heap' + side)] = chars       # Array<char> with the terminator as its last element
+                            store['_s'] = ('P', ('O', 'heap' + side), 0)
+                    r = scansim.Run(prog, f, bufs, mems=mems, methods={'*': 'interp'}, objects=True)
+                    r.recs['other'] = rec
+                    r.vars[pid] = ('R', 'other')
+                    r.objlen['heapL'] = len(t1) + 1
+                    r.objlen['heapR'] = len(t2) + 1
+                    runs += 1
+                    try:
+                        got = r.run()
+                    except (scansim.Unsupported, scansim.OOB, TypeError, KeyError) as u:
+                        und = '%s "%s" == %s "%s": %s' % (rep1, t1, rep2, t2, u)
+                        break
+                    if bool(got) != (t1 == t2):
+                        bad = 'a Var holding "%s" (%s) compares %s to a Var holding "%s" (%s)' % (t1, 'inline' if rep1 == 'SSTRING' else 'heap buffer', 'equal' if got else 'unequal', t2, 'inline' if rep2 == 'SSTRING' else 'heap buffer')
+                        break
+                if bad or und:
+                    break
+            if bad or und:
+                break
+        if bad or und:
+            break
+    ctx.evaluations += runs
+    if und:
+        ctx.undecided('C04.streq', f['pq'], role, fwhere(f), 'outside the interpreted fragment: %s' % und)
+    else:
+        ctx.check(bad is None, 'C04.streq', f['pq'], role, fwhere(f), 'interpreted for %d (text, text, representation, representation) combinations' % runs, 'Var::operator==: %s' % bad)
